@@ -28,6 +28,10 @@ def check_case(spec):
         return "atom group(s) %r reported more than once" % (dup,), len(found)
     missing = sorted(want - set(found))
     extra = sorted(set(found) - want)
+    # a look-alike (near miss, bent copy) whose best proper rigid fit is within the acceptance bound of C01 (2*sqrt(3)*atol per atom) is not
+    # "clearly outside the tolerance": reporting it is neither required nor forbidden
+    grey = {geo.group_key(g) for g, kind, dev in case.get('lookalikes', []) if dev <= 2 * np.sqrt(3) * atol}
+    extra = [g for g in extra if g not in grey]
     if missing:
         return "planted occurrence(s) %r not reported (found %r)" % (missing, sorted(found)), len(found)
     if extra:
